@@ -36,8 +36,10 @@ def packet_arrived(self, packet):
 ''')
 
 SINKPUT_VIEW = View(ignore_calls=('print', 'dprint', 'format', 'sum', 'float'))
+from ..paths import Options as _Options
+SINKPUT_OPTS = _Options(no_inline={'put'})
 
-spec('TCPSink', 'put', view=SINKPUT_VIEW,
+spec('TCPSink', 'put', view=SINKPUT_VIEW, opts=SINKPUT_OPTS,
      what='record like a sink; merge; ACK = end of the first range iff it starts at byte 0, else 0 (a function of the '
           'receive buffer only); ACK packet carries the segment\'s time, id and flow + 10000; sent once')('''
 def put(self, packet):
